@@ -10,7 +10,8 @@ Scraped from src/readers/journalreader.rs and src/data/journal.rs (comments stri
     ends the enumeration, the emergency bound of the enumeration loop, `mu as f64 / <div>`, the format!
     width/precision of the monotonic field and the blank placeholder;
   * in next_verbose / next_export: the emergency bound; in next_verbose the bytes trimmed from _SELINUX_CONTEXT;
-  * DT_USES_SOURCE_OVERRIDE; whether get_monotonic_usec calls call_sd_id128_get_boot before asking the journal.
+  * DT_USES_SOURCE_OVERRIDE; whether get_monotonic_usec calls call_sd_id128_get_boot before asking the journal;
+  * whether next_verbose collects the data objects in a HashMap (one value per name) or a Vec (all of them).
 Anything of unexpected shape raises ScrapeError."""
 import os, re
 from common import *
@@ -152,6 +153,14 @@ def scrape():
 
     nv = fn_body(src, "next_verbose")
     emerg_verbose = int(one(r"while\s+emerg_stop_data_enumerate\s*<\s*(\d+)", nv, "next_verbose emergency bound"))
+    # the collection of next_verbose: one value per name (HashMap, insert) or every data object (Vec, push)
+    if re.search(r"let\s+mut\s+fields\s*:\s*HashMap<\s*&\[u8\]\s*,\s*&\[u8\]\s*>", nv) and re.search(r"fields\.insert\(\s*key\s*,\s*value\s*\)", nv):
+        verbose_multi = False
+    elif (re.search(r"let\s+mut\s+fields\s*:\s*Vec<\s*\(\s*&\[u8\]\s*,\s*&\[u8\]\s*\)\s*>", nv) and re.search(r"fields\.push\(\s*\(\s*key\s*,\s*value\s*\)\s*\)", nv)
+          and re.search(r"fields\.retain\(", nv) and re.search(r"\.sorted\(\)", nv)):
+        verbose_multi = True
+    else:
+        raise ScrapeError("next_verbose: the collection `fields` is neither the HashMap nor the Vec the model knows")
     trim_blk = one(r"if\s+key\s*==\s*(\w+)\s*\{\s*while\s+((?:value\.ends_with\(b\"(?:[^\"\\]|\\.)*\"\)\s*(?:\|\|)?\s*)+)\{", nv, "next_verbose trim")
     selinux = key_of(trim_blk[0])
     trims = []
@@ -186,7 +195,7 @@ def scrape():
             raise ScrapeError("constant %s not found" % k)
     return dict(consts=consts, dispatch=dispatch, order=order, slot_key=slot_key, need=need, emerg_short=emerg_short,
                 emerg_verbose=emerg_verbose, emerg_export=emerg_export, div=int(div.replace("_", "")), width=int(width), prec=int(prec),
-                blank=blank, selinux=selinux, trims=trims, override=override, needs_host=needs_host)
+                blank=blank, selinux=selinux, trims=trims, override=override, needs_host=needs_host, verbose_multi=verbose_multi)
 
 
 def generate():
@@ -236,6 +245,7 @@ def generate():
         ("cfg_mono_prec", "%d%%nat" % t["prec"]),
         ("cfg_mono_blank", "s2b " + coq_str(t["blank"])),
         ("cfg_mono_needs_host", "true" if t["needs_host"] else "false"),
+        ("cfg_verbose_multi", "true" if t["verbose_multi"] else "false"),
     ]
     L.append("Definition src_cfg : jcfg := {|\n%s\n|}." % ";\n".join("  %s := %s" % kv for kv in fields))
     L.append("")
